@@ -511,7 +511,13 @@ func execFl(o *Out, id, line string) {
 		// the same reader model after Reset: a reader that has read some of an earlier stream
 		// (one of three canned ones: long enough to fill and wrap the 32 KiB window, short, corrupt)
 		// is reset onto `in` - tied to theorem C14_flate_reset_fresh
-		if len(in) > 0 && len(in) <= 3000 && (o.tier == "thorough" || rr.Intn(10) == 0) {
+		// one scenario in ten (quick); thorough: half of the real streams, one in 200 of the millions of
+		// exhaustive 3-byte strings
+		take := rr.Intn(10) == 0
+		if o.tier == "thorough" {
+			take = (len(in) > 3 && rr.Intn(2) == 0) || rr.Intn(200) == 0
+		}
+		if len(in) > 0 && len(in) <= 3000 && take {
 			prevs := flCannedPrevs()
 			pi := 1 + rr.Intn(len(prevs)-1)
 			if rr.Intn(6) == 0 {
